@@ -201,8 +201,9 @@ def q_forms():
     a = Poly.atom(("idiv", cel.func_atom("abs", MONTHS).key(), Poly.const(12).key())) * cel.func_atom("signum", MONTHS)
     b = Poly.atom(("idiv", MONTHS.key(), Poly.const(12).key()))
     c = cel.func_atom("trunc", MONTHS * Poly.const(12).inv())
+    c2 = cel.func_atom("truncq", MONTHS * Poly.const(12).inv())          # the quotient implied by the built-in `months % 12`
     d = Poly.atom(("ediv", MONTHS.key(), Poly.const(12).key()))
-    return {next(iter(x.t))[0]: rng for x, rng in ((a, (-11, 11)), (b, (-11, 11)), (c, (-11, 11)), (d, (0, 11)))}
+    return {next(iter(x.t))[0]: rng for x, rng in ((a, (-11, 11)), (b, (-11, 11)), (c, (-11, 11)), (c2, (-11, 11)), (d, (0, 11)))}
 
 
 R_RANGE = []
